@@ -107,7 +107,7 @@ def encode_wire(raw, enc):
 
 
 # ----------------------------------------------------------------------------- payloads
-WORDS = ["a", "bc", "1.5", "x,y", "é", "日本", "😀", "ü", "value", "?", "'q'", "€", " "]
+WORDS = ["a", "bc", "1.5", "x,y", "é", "日本", "😀", "ü", "value", "?", "'q'", "€", " ", "»", "¿x", "naïve", "，", "\ufeff", "ÿ", "\ufffd"]
 SEPS = [("\n", 6), ("\r\n", 5), ("\r", 2), ("\n\n", 1), ("\r\n\r\n", 1)]
 EXOTIC = ["\x0b", "\x0c", "\x1c", "\x85", " ", " "]
 
@@ -229,7 +229,7 @@ class C12:
             cs = weighted(rng, [("utf-8", 8), ("latin-1", 1), ("utf-16", 1)])
             t = gen_text(rng, exotic=rng.random() < 0.25)
             if cs == "latin-1":
-                t = "".join(ch if ord(ch) < 256 else "\u00fc" for ch in t)
+                t = "".join(ch if ord(ch) < 256 else "\u00ef\u00bb\u00bf"[ord(ch) % 3] for ch in t)
             return {"kind": kind, "text": t, "short_seed": rng.randrange(1 << 30), "charset": cs}
         if kind == "repetitive":
             return {"kind": "text", "text": gen_repetitive(rng), "short_seed": rng.randrange(1 << 30)}
